@@ -40,7 +40,9 @@ vars == <<cfg, in, pc, ai, cj, sigReq, hasSig, errs, oks, verdict, ret, step, ba
 Conf(recip, irt, t) == [recip |-> recip, irt |-> irt, nooa |-> t, m |-> "bearer"]
 ConfM(recip, irt, t, m) == [recip |-> recip, irt |-> irt, nooa |-> t, m |-> m]   \* m: bearer | hok | sv | none (no Method attribute)
 \* time: the assertion's IssueInstant; cond: its Conditions window (NotBefore / NotOnOrAfter); "out" = an hour outside
-Assn(signed, iss, confs, auds, t) == [signed |-> signed, iss |-> iss, confs |-> confs, auds |-> auds, time |-> t, cond |-> "in"]
+\* issfmt: the Format attribute of the assertion's Issuer element - "entity" (what this library's IdP writes), "absent",
+\* "other" (unspecified / persistent / ...).  The Issuer names the IdP or it does not, whatever Format it claims
+Assn(signed, iss, confs, auds, t) == [signed |-> signed, iss |-> iss, issfmt |-> "entity", confs |-> confs, auds |-> auds, time |-> t, cond |-> "in"]
 
 GoodConf == Conf("eq", "id1", "in")
 GoodAssn(signed) == Assn(signed, "eq", <<GoodConf>>, <<"eq">>, "in")
@@ -114,10 +116,12 @@ CfgsC03small == { BaseCfg, [BaseCfg EXCEPT !.cur = "query"], [BaseCfg EXCEPT !.c
 \* an SP without any identifier of its own: audience restrictions that name somebody are not for it
 NoIdentCfgs == { [BaseCfg EXCEPT !.eidSet = FALSE, !.noIdent = TRUE, !.allowIdp = i] : i \in BOOLEAN }
 NoIdentIns  == UNION { { Vary(b, "auds", v) : v \in { <<>>, <<"wrong">>, <<"wrong", "wrong">>, <<"eq">> } } : b \in {Base, Unsigned(Base)} }
+IssFmtIns == { [b EXCEPT !.assns[1].iss = i, !.assns[1].issfmt = f] : b \in {Base, Unsigned(Base)}, i \in {"eq", "wrong", "case", "prefix"}, f \in {"absent", "other"} }
 StubCfgs == { [BaseCfg EXCEPT !.idpStub = TRUE, !.allowIdp = i] : i \in BOOLEAN }
 StubIns  == { [b EXCEPT !.rIss = r, !.assns[1].iss = a] : b \in {Base, Unsigned(Base)}, r \in {"absent", "eq"}, a \in {"eq", "wrong", "case"} }
 InitC03q == \/ /\ cfg \in NoIdentCfgs /\ in \in NoIdentIns
             \/ /\ cfg \in StubCfgs /\ in \in StubIns
+            \/ /\ cfg \in {BaseCfg, [BaseCfg EXCEPT !.allowIdp = TRUE]} /\ in \in IssFmtIns
             \/ /\ cfg \in CfgsC03
                /\ in \in Singles(Base) \cup Singles(Unsigned(Base)) \cup TwoConfs \cup TwoAssns \cup NoConfs \cup NoDataConfs \cup MethodConfs
             \/ /\ cfg \in CfgsC03small
@@ -129,6 +133,7 @@ InitC03q == \/ /\ cfg \in NoIdentCfgs /\ in \in NoIdentIns
                /\ in \in { [x EXCEPT !.entry = "post"] : x \in Singles(Base) }
 InitC03t == \/ /\ cfg \in NoIdentCfgs /\ in \in NoIdentIns
             \/ /\ cfg \in StubCfgs /\ in \in StubIns
+            \/ /\ cfg \in {BaseCfg, [BaseCfg EXCEPT !.allowIdp = TRUE]} /\ in \in IssFmtIns
             \/ /\ cfg \in CfgsC03
                /\ in \in Singles(Base) \cup Singles(Unsigned(Base)) \cup TwoConfs \cup TwoAssns \cup NoConfs \cup NoDataConfs \cup MethodConfs
                         \cup Pairs(Base) \cup ArtC03 \cup ArtInner
